@@ -161,8 +161,9 @@ func specToStrings(maxElems int) seqmc.Spec {
 
 func specCompletePath() seqmc.Spec {
 	type cp struct {
-		po, so string
-		pe, se []elemSpec
+		po, so     string
+		pe, se     []elemSpec
+		penc, senc string
 	}
 	es := [][]elemSpec{{}, {{"a", nil}}, {{"a", []string{"k2", "k1"}}, {"b", nil}}}
 	ss := [][]elemSpec{{}, {{"c", nil}}, {{"c", []string{"k1"}}, {"d", nil}}}
@@ -171,18 +172,25 @@ func specCompletePath() seqmc.Spec {
 		for _, so := range []string{"", "o2"} {
 			for _, pe := range es {
 				for _, se := range ss {
-					cases = append(cases, cp{po, so, pe, se})
+					// both path encodings (and both at once) on either side: a
+					// prefix carrying its elements in the deprecated field has
+					// elements all the same
+					for _, penc := range []string{"elem", "element", "both"} {
+						for _, senc := range []string{"elem", "element", "both"} {
+							cases = append(cases, cp{po, so, pe, se, penc, senc})
+						}
+					}
 				}
 			}
 		}
 	}
 	return seqmc.Spec{Name: "CompletePath: prefix/path origin x element combinations", N: len(cases), Run: func(i int) (string, bool, []seqmc.Violation) {
 		c := cases[i]
-		pp, pidx := tsCase{elems: c.pe, enc: "elem", origin: c.po}.build()
-		sp, sidx := tsCase{elems: c.se, enc: "elem", origin: c.so}.build()
+		pp, pidx := tsCase{elems: c.pe, enc: c.penc, origin: c.po}.build()
+		sp, sidx := tsCase{elems: c.se, enc: c.senc, origin: c.so}.build()
 		desc := fmt.Sprintf("%+v", c)
 		got, err := path.CompletePath(pp, sp)
-		wantErr := c.po != "" && c.so != "" || c.so != "" && len(c.pe) > 0
+		wantErr := c.po != "" && c.so != "" || c.so != "" && len(pidx) > 0
 		if (err != nil) != wantErr {
 			return desc, true, vio("completepath-error", "CompletePath(%v, %v) error=%v, conflicting origins=%v", pp, sp, err, wantErr)
 		}
